@@ -55,6 +55,27 @@ Proof.
     intros d' Hd'. destruct rest as [|b1 r]; cbn in Hd'; [discriminate|]. inversion Hd'; reflexivity.
   - destruct (IH (endog b0 (exog b0 Dbeg)) k b d Hb Hd) as (H1 & H2 & H3). split; [assumption|]. split; [lia|]. exact H3.
 Qed.
+
+(** any property of distributions preserved by every exogenous and endogenous step (total mass -- C08 -- or non-negativity
+    inside the grid) holds of the beginning-of-period and end-of-period distribution at EVERY date of the forward pass *)
+Theorem forward_invariant_lemma (P : Dist -> Prop) :
+  (forall b d, P d -> P (exog b d)) -> (forall b d, P d -> P (endog b d)) ->
+  forall paths Dbeg, P Dbeg -> forall d, In d (forward_nonlinear B Dist exog endog paths Dbeg) -> P (fst d) /\ P (snd d).
+Proof.
+  intros Hx He. induction paths as [|b rest IH]; intros Dbeg H0 d Hin; cbn [forward_nonlinear] in Hin; [contradiction|].
+  destruct Hin as [<-|Hin]; cbn [fst snd].
+  - split; [assumption | apply Hx; assumption].
+  - apply (IH (endog b (exog b Dbeg))); [apply He; apply Hx; assumption | assumption].
+Qed.
+
+(** a quantity conserved by both steps (total mass) is the same at every date *)
+Theorem forward_conserved_lemma (R : Type) (mass : Dist -> R) :
+  (forall b d, mass (exog b d) = mass d) -> (forall b d, mass (endog b d) = mass d) ->
+  forall paths Dbeg d, In d (forward_nonlinear B Dist exog endog paths Dbeg) -> mass (fst d) = mass Dbeg /\ mass (snd d) = mass Dbeg.
+Proof.
+  intros Hx He paths Dbeg d Hin.
+  apply (forward_invariant_lemma (fun x => mass x = mass Dbeg) (fun b x Hxm => eq_trans (Hx b x) Hxm) (fun b x Hxm => eq_trans (He b x) Hxm) paths Dbeg eq_refl d Hin).
+Qed.
 End LoopProofs.
 
 Section SsProofs.
